@@ -105,6 +105,19 @@ def run_spec(spec, *, connect_only=False, memory=None, location="spill", check_m
     def on_ada_finalize(ada):
         rep.ada_finalize[id(ada)] = rep.ada_finalize.get(id(ada), 0) + 1
 
+    life = {c: [] for c in comps}
+    for ev, ch in (("initialize_entry", "I"), ("connect_entry", "C"), ("validate_entry", "V"), ("update_entry", "U"), ("finalize_entry", "F")):
+        REC.on(ev, lambda comp, *a, ch=ch: life[comp].append(ch) if comp in life else None)
+    n_upd = [0]
+
+    def count_update(comp, *a):
+        if isinstance(comp, ITimeComponent):
+            n_upd[0] += 1
+            if n_upd[0] > b.ctx.cap:
+                raise harness.StepCapExceeded(f"more than {b.ctx.cap} updates")
+            rep.update_order.append(comp.name)
+
+    REC.on("update_entry", count_update)
     REC.on("update_entry", on_update_entry)
     REC.on("out_get_data", on_out_get_data)
     REC.on("in_pull_data_err", on_pull_err)
@@ -131,15 +144,15 @@ def run_spec(spec, *, connect_only=False, memory=None, location="spill", check_m
     finally:
         REC.reset()
     for c in comps:
-        rep.calls[c.name] = "".join(c.calls)
+        # 'I' happens inside Composition.__init__, before listeners exist: taken from the harness' own log if present
+        rep.calls[c.name] = ("I" if not life[c] or life[c][0] != "I" else "") + "".join(life[c])
         rep.status[c.name] = str(c.status).rsplit(".", maxsplit=1)[-1]
         if isinstance(c, ITimeComponent):
             rep.final_time[c.name] = hrs(c.time)
         if isinstance(c, harness.PullThrough):
             rep.provider_logs[c.name] = list(c.provider_log)
     rep.received = b.ctx.received
-    rep.n_updates = b.ctx.updates
-    rep.update_order = [u[0] for u in b.ctx.update_log]
+    rep.n_updates = n_upd[0]
     if rep.outcome != "ok":
         # release spill files etc. of aborted runs
         for c in comps:
